@@ -46,9 +46,9 @@ func fillerWords(r *RNG, n int) string {
 // ---------------------------------------------------------------------------
 // conventional pagers
 
-var pagerFamilies = []string{"query", "query2", "path", "path2", "suffix", "suffix2"}
+var pagerFamilies = []string{"query", "query2", "path", "path2", "suffix", "suffix2", "dated-suffix", "dated-page"}
 
-const pagerOrigin = "http://example.com"
+var pagerOrigins = []string{"http://example.com", "https://example.com", "http://mirror.example.org", "https://www.example.com:8443"}
 
 // famPath returns the absolute path+query of page i; slash adds a trailing slash (path families).
 func famPath(fam string, i int, slash bool) string {
@@ -67,6 +67,10 @@ func famPath(fam string, i int, slash bool) string {
 		return fmt.Sprintf("/story/alpha/%d%s", i, s)
 	case "suffix":
 		return fmt.Sprintf("/story/alpha-%d.html", i)
+	case "dated-suffix": // page number inside a component, under a dated directory
+		return fmt.Sprintf("/story/2014/07/alpha-%d.html", i)
+	case "dated-page":
+		return fmt.Sprintf("/story/2014/07/alpha_Page%d.html", i)
 	default:
 		return fmt.Sprintf("/story/alpha_p%d.html", i)
 	}
@@ -75,11 +79,11 @@ func famPath(fam string, i int, slash bool) string {
 func famAllowsSlash(fam string) bool { return fam == "path" || fam == "path2" }
 
 // famHref renders the link to page i in the given href form, as seen from page k.
-func famHref(fam string, i int, slash bool, form string) string {
+func famHref(origin, fam string, i int, slash bool, form string) string {
 	abs := famPath(fam, i, slash)
 	switch form {
 	case "abs":
-		return pagerOrigin + abs
+		return origin + abs
 	case "root":
 		return abs
 	default: // relative to the page
@@ -93,8 +97,10 @@ func famHref(fam string, i int, slash bool, form string) string {
 				return fmt.Sprintf("../%d/", i)
 			}
 			return fmt.Sprintf("%d", i)
-		case "suffix":
+		case "suffix", "dated-suffix":
 			return fmt.Sprintf("alpha-%d.html", i)
+		case "dated-page":
+			return fmt.Sprintf("alpha_Page%d.html", i)
 		default:
 			return fmt.Sprintf("alpha_p%d.html", i)
 		}
@@ -116,6 +122,7 @@ type pagerSpec struct {
 	PrevNext bool
 	Labels   int
 	WithNums bool
+	Origin   int
 }
 
 var nextLabels = []string{"Next", "next", "Next &raquo;", "Next page", "NEXT"}
@@ -123,15 +130,16 @@ var prevLabels = []string{"Prev", "Previous", "&laquo; Prev", "previous page", "
 
 func conventionalPager(sp pagerSpec, r *RNG) *Pager {
 	pg := &Pager{N: sp.N, K: sp.K, Family: sp.Fam}
-	pg.PageURL = pagerOrigin + famPath(sp.Fam, sp.K, sp.Slash)
+	origin := pagerOrigins[sp.Origin%len(pagerOrigins)]
+	pg.PageURL = origin + famPath(sp.Fam, sp.K, sp.Slash)
 	page := mustURL(pg.PageURL)
 	resolve := func(i int) string {
-		ref, _ := nurl.Parse(famHref(sp.Fam, i, sp.Slash, sp.Form))
+		ref, _ := nurl.Parse(famHref(origin, sp.Fam, i, sp.Slash, sp.Form))
 		return canonURL(page.ResolveReference(ref))
 	}
 	var parts []string
 	if sp.PrevNext && sp.K > 1 {
-		parts = append(parts, fmt.Sprintf(`<a href="%s">%s</a>`, famHref(sp.Fam, sp.K-1, sp.Slash, sp.Form), prevLabels[sp.Labels]))
+		parts = append(parts, fmt.Sprintf(`<a href="%s">%s</a>`, famHref(origin, sp.Fam, sp.K-1, sp.Slash, sp.Form), prevLabels[sp.Labels]))
 		pg.HasPrev = true
 	}
 	if !sp.PrevNext || sp.WithNums {
@@ -148,12 +156,12 @@ func conventionalPager(sp pagerSpec, r *RNG) *Pager {
 					parts = append(parts, fmt.Sprintf(`<span class="current">%d</span>`, i))
 				}
 			} else {
-				parts = append(parts, fmt.Sprintf(`<a href="%s">%d</a>`, famHref(sp.Fam, i, sp.Slash, sp.Form), i))
+				parts = append(parts, fmt.Sprintf(`<a href="%s">%d</a>`, famHref(origin, sp.Fam, i, sp.Slash, sp.Form), i))
 			}
 		}
 	}
 	if sp.PrevNext && sp.K < sp.N {
-		parts = append(parts, fmt.Sprintf(`<a href="%s">%s</a>`, famHref(sp.Fam, sp.K+1, sp.Slash, sp.Form), nextLabels[sp.Labels]))
+		parts = append(parts, fmt.Sprintf(`<a href="%s">%s</a>`, famHref(origin, sp.Fam, sp.K+1, sp.Slash, sp.Form), nextLabels[sp.Labels]))
 		pg.HasNext = true
 	}
 	body := strings.Join(parts, pagerSeps[sp.Sep])
@@ -423,7 +431,10 @@ func genPager(r *RNG, hostile bool) *Pager {
 				nums = append(nums, 30+r.Intn(5), 36)
 			}
 		}
-		sep := []string{" ", " | ", " &middot; ", "</span><span>"}[r.Intn(4)]
+		sep := []string{" ", " | ", " &middot; ", "</span><span>", "&nbsp;|&nbsp;", "&nbsp;", " &nbsp;&raquo;&nbsp; "}[r.Intn(7)]
+		if r.Intn(6) == 0 {
+			sb.WriteString("Page:&nbsp;")
+		}
 		for _, i := range nums {
 			if i == k && r.Intn(4) != 0 {
 				switch r.Intn(4) {
